@@ -54,6 +54,7 @@ type channel struct {
 	streamMut       sync.RWMutex
 	reconnectMut    sync.Mutex // serializes reconnect attempts of the sender and the receiver
 	streamBroken    atomicFlag
+	streamUp        chan struct{} // signals a goroutine sleeping in reconnect's back-off that the stream is up again
 	connEstablished atomicFlag
 	parentCtx       context.Context
 	streamCtx       context.Context
@@ -76,6 +77,7 @@ func newChannel(n *RawNode) *channel {
 		latency:         -1 * time.Second,
 		rand:            rand.New(rand.NewSource(time.Now().UnixNano())),
 		responseRouters: make(map[uint64]responseRouter),
+		streamUp:        make(chan struct{}, 1),
 	}
 	// parentCtx controls the channel and is used to shut it down
 	c.parentCtx = n.newContext()
@@ -365,6 +367,12 @@ func (c *channel) reconnect(maxRetries float64) {
 			// its streamBroken check must never find a nil stream
 			c.gorumsStream = stream
 			c.streamBroken.clear()
+			// The other goroutine (sender or receiver) may be sleeping in its back-off below;
+			// wake it up, so that e.g. replies on the new stream do not wait for its timer.
+			select {
+			case c.streamUp <- struct{}{}:
+			default:
+			}
 			c.streamMut.Unlock()
 			c.reconnectMut.Unlock()
 			return
@@ -387,6 +395,8 @@ func (c *channel) reconnect(maxRetries float64) {
 		select {
 		case <-time.After(time.Duration(delay)):
 			retries++
+		case <-c.streamUp:
+			// the stream has been re-created meanwhile; this is checked at the top of the loop
 		case <-c.parentCtx.Done():
 			return
 		}
